@@ -64,9 +64,11 @@ fn main() {
     let nc = if quick { circuits.len().min(400) } else { circuits.len() };
     ctx.run_slice(Slice::new(format!("optic-derivative-lenses[{} circuits; deviations <= {}]", nc, bound), nc as u64, |i, loc| check_optic(&circuits[i as usize], Arc::new(RDiff), &serde_json::json!("reverse-derivative lenses"), bound, loc)));
     // layering
-    let slay = if quick { Spec::hyper(3, 2, 2, 1, 1) } else { Spec::hyper(3, 3, 2, 1, 1) };
-    let ulay = slay.universe();
-    ctx.run_slice(Slice::new(format!("layer[{}; deviations <= {}]", slay.name(), bound), ulay.count(), |i, loc| check_layer(&ulay.get_open(i), bound, loc)));
+    let slays = if quick { vec![Spec::hyper(3, 2, 2, 1, 1)] } else { vec![Spec::hyper(3, 2, 2, 1, 1), Spec { e_min: 3, ..Spec::hyper(2, 3, 2, 1, 1) }, Spec { n_min: 4, ..Spec::hyper(4, 2, 1, 1, 1) }] };
+    for slay in slays {
+        let ulay = slay.universe();
+        ctx.run_slice(Slice::new(format!("layer[{}; deviations <= {}]", slay.name(), bound), ulay.count(), move |i, loc| check_layer(&ulay.get_open(i), bound, loc)));
+    }
     // evaluation (all programs, including ones with never-written nodes)
     let progs = Progs::new(&[2, 3, 4, 6, 7], 3, 2, 2, 2);
     ctx.run_slice(Slice::new(format!("eval[{}; deviations <= {}]", progs.name(), bound), progs.count(), |i, loc| check_eval(&progs.get(i), &interp, bound, loc)));
